@@ -606,7 +606,13 @@ func (r *primaryObjectsRetriever) collectDocs(numDocs int) ([]core.Doc, error) {
 func (r *primaryObjectsRetriever) retrievePrimaryDocs() ([]core.Doc, error) {
 	r.primaryScan.addField(r.relIDFieldDef)
 
-	r.primaryScan.filter = addFilterOnIDField(r.filter, r.primarySide.relIDFieldMapIndex.Value(),
+	scanFilter := r.filter
+	if r.primarySide.isParent {
+		// The given filter is the one of the child selection. Here the primary side is the parent: the
+		// conditions on its own fields are in its scan node, and they have to stay there.
+		scanFilter = r.primaryScan.filter
+	}
+	r.primaryScan.filter = addFilterOnIDField(scanFilter, r.primarySide.relIDFieldMapIndex.Value(),
 		r.targetSecondaryDoc.GetID())
 
 	oldFetcher := r.primaryScan.fetcher
